@@ -44,6 +44,12 @@ def cases(tier, seed):
     tables += [gen.binnify([7, 5], 3), gen.binnify([6, 6, 2], 2), gen.binnify([9], 4), gen.binnify([3, 7, 2], 5),
                [[0, 0, 10], [0, 10, 20], [0, 20, 45]], [[0, 0, 10], [0, 10, 20], [1, 0, 25]],
                [[0, 0, 25], [1, 0, 10], [1, 10, 20]], [[0, 0, 10], [0, 10, 15], [1, 0, 10], [1, 10, 20], [1, 20, 21]]]
+    # large bins whose widths differ by very little RELATIVE to their size (an equal-count segmentation rounded to integers):
+    # variable all the same
+    tables += [gen.table_from_edges([[0, 1000000, 2000001, 3000002, 3500000]]),
+               gen.table_from_edges([[0, 100000, 200001, 250000], [0, 100000, 150000]]),
+               gen.table_from_edges([[0, 1000000, 2000000, 3000010, 3000020]]),
+               gen.binnify([3500000, 1200000], 1000000)]
     for k, t in enumerate(tables):
         # row labels of the data frame: 0..n-1, shifted, or a permutation (the table itself is in order either way)
         yield "ext.binsize", {"table": t, "categorical": [True, False, "lexical", False][k % 4], "index": ["default", "offset", "sorted"][k % 3],
